@@ -4,6 +4,7 @@ C03 — property theorems.  `serve` is the model of the code (with the three `fi
 (any `Connection` value, any method/framing/version), every server setting and every response shape.
 -/
 import TornadoModel.C03.Spec
+import TornadoModel.C03.Lemmas
 namespace TornadoModel.C03
 open Spec
 
@@ -33,6 +34,21 @@ theorem keepalive_iff_partial (nka : Bool) (r : Req) (resp : Resp) (early bodyEm
     cases resp <;> cases m <;> first | rfl | (exfalso; exact h ⟨rfl, rfl⟩)
 
 example : ¬((false : Bool) = true ∧ (true : Bool) = true) := by decide
+
+/-- the same, read on the outputs only: `closes` against `shouldKeep` evaluated on the `chunked` flag the run itself put on the
+wire (the flag the harness compares with the real response on every case and the oracle takes from the wire) -/
+theorem keepalive_iff_output (nka : Bool) (r : Req) (resp : Resp) (early bodyEmpty : Bool)
+    (h : ¬(early = true ∧ bodyEmpty = true)) :
+    (serve nka r resp early).closes = !shouldKeep nka r resp (serve nka r resp early).chunked early bodyEmpty :=
+  keepalive_iff_partial nka r resp early bodyEmpty h
+
+/-- "self-delimiting" (Spec: Content-Length | chunked on the wire | 204/304 | HEAD) is exactly the negation of the code's
+"can only be delimited by closing" on what the run wrote -/
+theorem selfDelimiting_iff_not_undelimited (nka : Bool) (r : Req) (resp : Resp) (early : Bool) :
+    selfDelimiting r resp (serve nka r resp early).chunked = !undelimited r resp := by
+  obtain ⟨v, conn, m, f⟩ := r
+  simp only [serve, selfDelimiting, undelimited, chunking]
+  cases v <;> cases resp <;> cases m <;> rfl
 
 /-- … and fails for an early finish on a body-less request: the server closes although nothing was unread -/
 theorem keepalive_iff_refuted : ¬ keepalive_iff_full := by
@@ -114,5 +130,20 @@ theorem options_nonempty (v o : Str) (h : o ∈ options v) : o ≠ [] := by
   | cons x xs => simp [lower] at hl
 
 example : options [99, 108, 111, 115, 101, 44, 32, 88] = [sClose, [120]] := by decide   -- "close, X"
+
+/-- `tok in _connection_options(v)` says: some comma-separated piece of `v` (the pieces are characterised by
+`joinComma_splitComma` / `splitComma_no_comma` / `splitComma_joinComma`), with surrounding SP/HTAB removed (`strip_spec`)
+and lower-cased (`lowerC_ascii`), equals `tok` -/
+theorem hasOption_iff (tok v : Str) (ht : tok ≠ []) :
+    hasOption tok (some v) = true ↔ ∃ p ∈ splitComma v, lower (strip p) = tok := by
+  simp only [hasOption, List.contains_iff_mem]
+  rw [mem_options_iff]
+  constructor
+  · rintro ⟨p, hp, _, rfl⟩; exact ⟨p, hp, rfl⟩
+  · rintro ⟨p, hp, rfl⟩
+    refine ⟨p, hp, ?_, rfl⟩
+    intro e; apply ht; simp [e, lower]
+
+example : hasOption sClose (some [120, 44, 67, 108, 111, 115, 101, 32]) = true := by decide   -- "x,Close "
 
 end TornadoModel.C03
